@@ -264,6 +264,45 @@ let expr_sim out =
     | _ -> Printf.fprintf out "BAD-LINE\n"
   done with End_of_file -> ()
 
+(* bad-model: lines "entry hex => W:pos:end:n;...": the recovery handlers of Parse/Recovery.v run from the state of the recovery-mode
+   scan whose current token starts at NodePos; the predicted (NodeEnd, number of tokens) must equal the Bad node of the real tree for
+   one of the handlers that can produce a Bad node wrapped this way *)
+let bad_model out =
+  let handlers w =
+    match w with
+    | "Stmt" | "DDL" | "DML" | "Node" -> [HStmt]
+    | "Query" -> [HQuery true; HQuery false; HStmt]
+    | "Expr" -> [HExpr]
+    | "Type" -> [HType]
+    | _ -> [] in
+  try while true do
+    let line = input_line stdin in
+    match String.split_on_char ' ' line with
+    | [entry; hex; "=>"; "PANIC"] -> Printf.fprintf out "%s %s => PANIC\n" entry hex
+    | entry :: hex :: "=>" :: rest ->
+      let bads = List.filter (fun x -> x <> "") (String.split_on_char ';' (String.concat "" rest)) in
+      let states = np_scan (bytes_of_string (string_of_hex hex)) in
+      let b = Buffer.create 64 in
+      List.iter (fun bd ->
+          match String.split_on_char ':' bd with
+          | [w; p; e; n] ->
+            let p = int_of_string p and e = int_of_string e and n = int_of_string n in
+            let cands = List.filter (fun l -> int_of_nat l.l_tok.t_pos = p) states in
+            if cands = [] then Buffer.add_string b "NOSTATE;"
+            else begin
+              let preds = List.concat_map (fun l -> List.filter_map (fun h ->
+                  match handle h l with
+                  | Some (bd, _) -> Some (int_of_nat bd.b_pos, int_of_nat bd.b_end, List.length bd.b_toks)
+                  | None -> None) (handlers w)) cands in
+              if List.mem (p, e, n) preds then Buffer.add_string b "OK;"
+              else Printf.bprintf b "MISMATCH(%s:%d:%d:%d predicted %s);" w p e n
+                  (String.concat "," (List.map (fun (a, c, d) -> Printf.sprintf "%d:%d:%d" a c d) preds))
+            end
+          | _ -> Buffer.add_string b "BAD-FIELD;") bads;
+      Printf.fprintf out "%s %s => %s\n" entry hex (Buffer.contents b)
+    | _ -> ()
+  done with End_of_file -> ()
+
 (* tree-wt: is every returned tree well typed against the regenerated schema (field count, kinds, interface conformance)? *)
 let tree_wt out =
   each_case (fun entry hex roots ->
@@ -312,5 +351,6 @@ let run (args : string list) : bool =
    | ["tree-wt"] -> tree_wt out; true
    | ["expr-model"] -> expr_model out; true
    | ["expr-sim"] -> expr_sim out; true
+   | ["bad-model"] -> bad_model out; true
    | ["tree-walkmany"] -> tree_walk out 0 0 true; true
    | _ -> false)
